@@ -2194,3 +2194,193 @@ def then_throws(f, ifnode):
     """the then-branch of the IfStmt ends in a throw on every path (single statement or compound ending in throw)."""
     t = f.nodes[ifnode]["then"]
     return any(f.k(x) == "CXXThrowExpr" for x in f.walk(t)) and not any(f.k(x) in ("ReturnStmt", "BreakStmt", "ContinueStmt") for x in f.walk(t))
+
+
+# --------------------------------------------------------------------------
+# evaluation of side-effect-free scalar expressions over a finite environment (selector analysis)
+# --------------------------------------------------------------------------
+class Unknown(Exception):
+    """the expression mentions something the environment does not define (or reads through a null pointer)"""
+
+
+NULLPTR = "<null>"          # value of a null pointer in an environment
+SOMEPTR = "<object>"        # value of a non-null pointer
+
+
+def atom_text(f, i):
+    return f.render(i).replace("this->", "").replace("table.", "").replace("this.", "").replace(" ", "")
+
+
+def expr_value(f, i, env):
+    """value of expression node i under env: {rendered atom text (blanks, this->, table. removed) -> int | NULLPTR | SOMEPTR}.
+    Integers are mathematical (no wrap-around: used for selectors and small indices only).  Short-circuit operators and the conditional
+    operator evaluate only the operand C++ evaluates, so `p == nullptr || p[n] == 0` is defined for p null.  Raises Unknown otherwise."""
+    i = f.strip(i)
+    n = f.nodes[i]
+    k = n["k"]
+    txt = atom_text(f, i)
+    if txt in env:
+        return env[txt]
+    if txt.startswith("(") and txt.endswith(")") and txt[1:-1] in env:
+        return env[txt[1:-1]]
+    if "cv" in n:
+        return n["cv"]
+    if k in ("IntegerLiteral", "CharacterLiteral"):
+        return n.get("v", n.get("cv"))
+    if k == "CXXBoolLiteralExpr":
+        return 1 if n.get("v") else 0
+    if k in ("CXXNullPtrLiteralExpr", "GNUNullExpr"):
+        return NULLPTR
+    if k == "UnaryOperator":
+        op = n.get("op")
+        if op in ("++", "--", "&", "*"):
+            raise Unknown(txt)
+        v = expr_value(f, n["ch"][0], env)
+        if op == "!":
+            return 0 if truth(v) else 1
+        if v in (NULLPTR, SOMEPTR):
+            raise Unknown(txt)
+        return {"-": -v, "+": v, "~": ~v}[op]
+    if k == "ConditionalOperator":
+        c, a, b = n["ch"]
+        return expr_value(f, a if truth(expr_value(f, c, env)) else b, env)
+    if k == "BinaryOperator":
+        op = n.get("op")
+        if op == "&&":
+            return 1 if truth(expr_value(f, n["ch"][0], env)) and truth(expr_value(f, n["ch"][1], env)) else 0
+        if op == "||":
+            return 1 if truth(expr_value(f, n["ch"][0], env)) or truth(expr_value(f, n["ch"][1], env)) else 0
+        if op == ",":
+            raise Unknown(txt)
+        a = expr_value(f, n["ch"][0], env)
+        b = expr_value(f, n["ch"][1], env)
+        if a in (NULLPTR, SOMEPTR) or b in (NULLPTR, SOMEPTR):
+            # pointer comparisons: against null only (an integer literal 0 is a null pointer constant)
+            b2 = NULLPTR if b == 0 else b
+            a2 = NULLPTR if a == 0 else a
+            if op == "==":
+                if SOMEPTR in (a2, b2) and a2 == b2:
+                    raise Unknown(txt)
+                return 1 if a2 == b2 else 0
+            if op == "!=":
+                if SOMEPTR in (a2, b2) and a2 == b2:
+                    raise Unknown(txt)
+                return 0 if a2 == b2 else 1
+            raise Unknown(txt)
+        try:
+            return {"+": lambda: a + b, "-": lambda: a - b, "*": lambda: a * b, "/": lambda: int(a / b), "%": lambda: a - b * int(a / b),
+                    "<<": lambda: a << b, ">>": lambda: a >> b, "&": lambda: a & b, "|": lambda: a | b, "^": lambda: a ^ b,
+                    "<": lambda: int(a < b), "<=": lambda: int(a <= b), ">": lambda: int(a > b), ">=": lambda: int(a >= b),
+                    "==": lambda: int(a == b), "!=": lambda: int(a != b)}[op]()
+        except (KeyError, ZeroDivisionError, ValueError):
+            raise Unknown(txt)
+    if k == "ArraySubscriptExpr":
+        base = n["ch"][0]
+        try:
+            bv = expr_value(f, base, env)
+        except Unknown:
+            bv = None
+        if bv == NULLPTR:
+            raise Unknown("read through a null pointer: " + txt)
+        # the element with the index evaluated, if the environment names it that way
+        try:
+            iv = expr_value(f, n["ch"][1], env)
+            key = "%s[%s]" % (atom_text(f, base), iv)
+            if key in env:
+                return env[key]
+        except Unknown:
+            pass
+    raise Unknown(txt)
+
+
+def truth(v):
+    if v == NULLPTR:
+        return False
+    if v == SOMEPTR:
+        return True
+    return v != 0
+
+
+def _switch_reaches(f, sw, i, value):
+    """does control reach the top-level statement of switch `sw` that contains node i when the switch value is `value`?"""
+    body = f.nodes[sw]["body"]
+    if f.k(body) != "CompoundStmt":
+        raise Unknown("switch body")
+    top = i
+    for a in f.ancestors(i):
+        if a == body:
+            break
+        top = a
+    kids = f.ch(body)
+    if top not in kids:
+        raise Unknown("switch body")
+    labels = []
+    for s in f.walk(body):
+        if f.k(s) == "CaseStmt" and next((a for a in f.ancestors(s) if f.k(a) == "SwitchStmt"), None) == sw:
+            lv = f.nodes[f.strip(f.nodes[s]["lhs"])].get("cv", f.nodes[f.nodes[s]["lhs"]].get("cv"))
+            if lv is None:
+                raise Unknown("case label")
+            labels.append(lv)
+    JUMP = ("BreakStmt", "ReturnStmt", "ContinueStmt", "CXXThrowExpr", "GotoStmt")
+
+    def ends_in_jump(s):
+        s = f.strip(s) if f.k(s) in TRANSPARENT else s
+        if f.k(s) in JUMP:
+            return True
+        if f.k(s) == "CompoundStmt":
+            kk = f.ch(s)
+            return bool(kk) and ends_in_jump(kk[-1])
+        return False
+    active = set()
+    for s in kids:
+        t = s
+        while f.k(t) in ("CaseStmt", "DefaultStmt"):
+            active.add(f.nodes[f.strip(f.nodes[t]["lhs"])].get("cv", f.nodes[f.nodes[t]["lhs"]].get("cv")) if f.k(t) == "CaseStmt" else "default")
+            if t == top and False:
+                break
+            t = f.nodes[t]["sub"]
+        if s == top:
+            sel = value if value in labels else "default"
+            return sel in active
+        if ends_in_jump(t):
+            active = set()
+    raise Unknown("switch body")
+
+
+def path_taken(f, i, env):
+    """is node i evaluated when the enclosing branch conditions are evaluated under env?  Only if/else, switch, ?: and the short-circuit
+    operators are decided; loops are taken as entered.  Raises Unknown when a condition on the way cannot be evaluated."""
+    chain = [i]
+    for a in f.ancestors(i):
+        if f.k(a) == "LambdaExpr":
+            break
+        chain.append(a)
+    # outermost first: an inner condition is evaluated only when the outer ones let control through
+    for j in range(len(chain) - 1, 0, -1):
+        a, child = chain[j], chain[j - 1]
+        n = f.nodes[a]
+        k = n["k"]
+        if k == "IfStmt":
+            if child == n.get("then"):
+                if not truth(expr_value(f, n["cond"], env)):
+                    return False
+            elif child == n.get("else"):
+                if truth(expr_value(f, n["cond"], env)):
+                    return False
+        elif k == "SwitchStmt":
+            if child == n.get("body"):
+                v = expr_value(f, n["cond"], env)
+                if v in (NULLPTR, SOMEPTR):
+                    raise Unknown("switch on a pointer")
+                if not _switch_reaches(f, a, i, v):
+                    return False
+        elif k == "ConditionalOperator" and len(n["ch"]) == 3:
+            if child == n["ch"][1] and not truth(expr_value(f, n["ch"][0], env)):
+                return False
+            if child == n["ch"][2] and truth(expr_value(f, n["ch"][0], env)):
+                return False
+        elif k == "BinaryOperator" and n.get("op") in ("&&", "||") and child == n["ch"][1]:
+            l = truth(expr_value(f, n["ch"][0], env))
+            if (n["op"] == "&&") != l:
+                return False
+    return True
